@@ -292,6 +292,14 @@ FIXED_HISTORIES = [
         {"dir": "a", "counts": {"train": 2, "test": 1}},
         {"dir": "a/b", "counts": {"train": 3}},
         {"dir": "a", "counts": {"train": 1}}]}],
+    # every writer of a multi-writer call fills several splits: the updates
+    # arrive interleaved by split (train, test, train, test, holdout, ...)
+    [{"kind": "multi", "reopen": False, "writers": [
+        {"train": 3, "test": 3}, {"train": 2, "test": 3, "holdout": 1},
+        {"test": 1, "train": 4}]},
+     {"kind": "root", "counts": {"train": 1, "holdout": 2}, "reopen": True},
+     {"kind": "multi", "reopen": False, "writers": [
+        {"holdout": 2, "train": 2}, {"holdout": 3, "train": 1}]}],
 ]
 
 
@@ -443,6 +451,12 @@ def check_integrity(ctx):
                     b = bytearray(orig)
                     b[o] ^= 1 << rnd.randrange(8)
                     mods.append((f"flip@{o}", bytes(b)))
+                # the same kind of edit made "quietly": same inode, same size,
+                # access / modification times put back (this process has
+                # already hashed the file once: check() above)
+                b = bytearray(orig)
+                b[offs[len(offs) // 2]] ^= 0x10
+                mods.append(("flip, times restored", bytes(b)))
                 for ln in sorted({0, 1, n // 2, n - 1}):
                     if ln < n:
                         mods.append((f"truncate->{ln}", orig[:ln]))
@@ -472,10 +486,15 @@ def check_integrity(ctx):
                     mods.append(("swap-with-sibling", sib[0].read_bytes()))
                 if f == root / "train" / "shards_list.json":
                     mods.append(("rollback", old_list))
+                st0 = f.stat()
                 for name, content in mods:
                     n_eval += 1
                     if content is None:
                         f.unlink()
+                    elif name.endswith("times restored"):
+                        with open(f, "r+b") as fh:     # in place: same inode
+                            fh.write(content)
+                        os.utime(f, ns=(st0.st_atime_ns, st0.st_mtime_ns))
                     else:
                         f.write_bytes(content)
                     try:
@@ -486,6 +505,7 @@ def check_integrity(ctx):
                     except Exception:  # noqa: BLE001
                         pass
                     f.write_bytes(orig)
+                    os.utime(f, ns=(st0.st_atime_ns, st0.st_mtime_ns))
                 if undetected and tier == "quick":
                     break
             # description file with expected checksums supplied
@@ -702,6 +722,19 @@ def _slow_feed(filler, groups, delay):
     return (n, sorted(groups))
 
 
+def _tag_feed(filler, groups, delay, tag, chdir_to=None):
+    """like _slow_feed; returns its tag; may change the working directory of
+    the process it runs in before writing"""
+    if chdir_to is not None:
+        os.chdir(chdir_to)
+    with filler as f:
+        for split, ids in groups.items():
+            for i in ids:
+                time.sleep(delay)
+                f.write_example(values=C.example(i), split=split)
+    return tag
+
+
 def check_parallel_writers(ctx):
     """C09: real worker processes with skewed speeds: results in argument
     order, same content as sequential, exact metadata, disjoint files."""
@@ -752,13 +785,74 @@ def check_parallel_writers(ctx):
             if problems:
                 bad = dict(plan=str(plan), problems=problems[:5])
                 break
+    # many writers (more than ten: names / indices with two digits), the
+    # later ones faster; and a dataset created through a RELATIVE path whose
+    # writers change their working directory
+    if bad is None:
+        cwd = os.getcwd()
+        for case in ("13 writers", "relative root + chdir",
+                     "relative root + chdir, single process"):
+            n_eval += 1
+            with C.tmpdir() as tmp:
+                try:
+                    os.chdir(tmp)
+                    if case == "13 writers":
+                        d = C.mk_dataset(tmp / "par", "fb", "", eps=2)
+                        # every writer fills BOTH splits: the updates
+                        # reach the description interleaved (train, test,
+                        # train, test, ...)
+                        args = [({"train": [100 + 10 * k, 101 + 10 * k],
+                                  "test": [500 + 10 * k, 501 + 10 * k,
+                                           502 + 10 * k]},
+                                 0.02 * (12 - k) / 12, f"w{k}") for k in
+                                range(13)]
+                        sp_ = False
+                    else:
+                        d = C.mk_dataset(Path("rel") / "par", "fb", "", eps=2)
+                        other = tmp / "elsewhere"
+                        other.mkdir()
+                        args = [({"train": [100, 101, 102]}, 0.0, "w0", None),
+                                ({"train": [110, 111]}, 0.0, "w1", str(other)),
+                                ({"train": [120]}, 0.0, "w2", None)]
+                        sp_ = case.endswith("single process")
+                    res = d.write_multiprocessing(
+                        feed_writer=_tag_feed, custom_arguments=args,
+                        single_process=sp_, consistency_check=True)
+                    os.chdir(tmp)
+                    root = tmp / ("par" if case == "13 writers" else "rel/par")
+                    want = {sp: [i for a in args
+                                 for i in a[0].get(sp, [])]
+                            for sp in ("train", "test")}
+                    want = {sp: v for sp, v in want.items() if v}
+                    problems = audit_tree(root, d, want)
+                    if res != [a[2] for a in args]:
+                        problems.append(f"results {res} are not in argument "
+                                        f"order")
+                    for sp in want:
+                        seq = C.iterate(Dataset(root), "numpy", sp)
+                        if seq != want[sp]:
+                            problems.append(f"{sp}: order {seq} != sequential "
+                                            f"equivalent {want[sp]}")
+                    stray = [str(p.relative_to(tmp)) for p in tmp.rglob("*")
+                             if p.is_file() and root not in p.parents]
+                    if stray:
+                        problems.append(f"files written outside the dataset: "
+                                        f"{stray[:3]}")
+                except Exception as e:  # noqa: BLE001
+                    problems = ["failed: " + repr(e)[:300]]
+                finally:
+                    os.chdir(cwd)
+                if problems:
+                    bad = dict(case=case, problems=problems[:5])
+                    break
     return [C.result(
         "write_multiprocessing with real processes of different speeds == the "
         "writers run one after another (content, per-writer order, metadata, "
         "check(), results in argument order)", bad is None,
         function="write_multiprocessing", evaluations=n_eval, witness=bad,
-        bound="2-4 real worker processes, skewed by sleeps (OS scheduling, "
-              "not all interleavings)")]
+        bound="2-4 and 13 real worker processes, skewed by sleeps (OS "
+              "scheduling, not all interleavings); a relative root with a "
+              "writer that changes its working directory")]
 
 
 # --------------------------------------------------------------------------
@@ -812,6 +906,38 @@ def check_digests(ctx):
                                  text=True).stdout.split()[0]
             if ext != hash_checksums(f, ("sha256",))[0]:
                 bad = dict(size=K, tool="sha256sum", external=ext)
+        # several files hashed at the same time by threads of one process
+        # (threaded writers): each digest is still that of its own file
+        if bad is None:
+            import threading
+            files = []
+            for k in range(6):
+                data = rnd.randbytes(3 * K + 17 * k + 1) * 4
+                f = tmp / f"par{k}"
+                f.write_bytes(data)
+                files.append((f, data))
+            for rep in range(2 if tier == "quick" else 6):
+                got = {}
+                start = threading.Barrier(len(files))
+
+                def work(k, f):
+                    start.wait()
+                    got[k] = tuple(hash_checksums(f, ("sha256", "xxh64")))
+                ths = [threading.Thread(target=work, args=(k, f))
+                       for k, (f, _) in enumerate(files)]
+                for t in ths:
+                    t.start()
+                for t in ths:
+                    t.join()
+                n_eval += len(files)
+                wrong = [k for k, (f, data) in enumerate(files)
+                         if got.get(k) != (_oneshot("sha256", data),
+                                           _oneshot("xxh64", data))]
+                if wrong:
+                    bad = dict(concurrent_threads=len(files),
+                               sizes=[len(d_) for _, d_ in files],
+                               files_with_wrong_digest=wrong)
+                    break
         rec_bad = None
         if bad is None:
             algs = ("sha3_256", "xxh32", "md5")
@@ -872,7 +998,8 @@ def check_digests(ctx):
                                    f"{len(data)} bytes)")
     return [C.result("hash_checksums == independent one-shot digests "
                      "(hashlib / xxhash / sha256sum), lowercase hex, "
-                     "argument order, sizes around multiples of 128 KiB",
+                     "argument order, sizes around multiples of 128 KiB, six "
+                     "files hashed concurrently by threads",
                      bad is None, function="hash_checksums",
                      evaluations=n_eval, witness=bad,
                      bound=f"sizes {sizes}, 5 algorithm tuples"),
@@ -925,7 +1052,17 @@ def check_paths(ctx):
         odd = [".." + bs + "outside" + bs + "secret.fb",
                bs + str(outside / "secret.fb")[1:].replace("/", bs),
                "train" + bs + ".." + bs + ".." + bs + "outside" + bs + "secret.fb"]
-        odd_lists = [".." + bs + "outside" + bs + "shards_list.json",
+        # ... and compatibility characters that Unicode normalisation (NFKC)
+        # turns into '.', '..' and '/': ONE DOT LEADER, TWO DOT LEADER,
+        # FULLWIDTH FULL STOP, FULLWIDTH SOLIDUS
+        odd += ["train/\u2024\u2024/\u2024\u2024/outside/secret.fb",
+                "\u2025/outside/secret.fb",
+                "\uff0e\uff0e/outside/secret.fb",
+                "..\uff0foutside\uff0fsecret.fb",
+                "\uff0f" + str(outside / "secret.fb").lstrip("/")]
+        odd_lists = ["\u2025/outside/shards_list.json",
+                     "\uff0e\uff0e/outside/shards_list.json"]
+        odd_lists += [".." + bs + "outside" + bs + "shards_list.json",
                      bs + str(outside / "shards_list.json")[1:].replace("/", bs),
                      ".." + bs + "escaped" + bs + "shards_list.json"]
         hostile_lists = ["../outside/shards_list.json",
@@ -1076,15 +1213,48 @@ def check_paths(ctx):
                     bad = dict(what="writer created files outside the root",
                                relative_path_from_split=h, created=created[:3])
                     break
+        # (4) outside A-SYMLINK's scope, kept as a regression probe of the
+        # canonical-path containment test in load_or_create: a writer
+        # sub-directory that is a symbolic link to a SIBLING whose name
+        # extends the root's name ("dataset" / "dataset_v2") must not have
+        # the list stored there loaded or rewritten
+        if not bad:
+            n_eval += 1
+            (root / "train" / "part").symlink_to(sib, target_is_directory=True)
+            sib_list = sib / "shards_list.json"
+            before = sib_list.read_bytes()
+            del opened[:]
+            builtins.open = h_open
+            io.open = h_open
+            try:
+                with DatasetFiller(Dataset(root),
+                                   relative_path_from_split=Path("part")) as f:
+                    f.write_example(values=C.example(5), split="train")
+                    f.write_example(values=C.example(6), split="train")
+                    f.write_example(values=C.example(7), split="train")
+            except Exception:  # noqa: BLE001
+                pass
+            finally:
+                builtins.open = o_open
+                io.open = o_ioopen
+            if sib_list.read_bytes() != before or any(
+                    p.endswith("shards_list.json") for p in opened):
+                bad = dict(what="a shard list outside the root (reached "
+                           "through a symbolic link to a sibling directory "
+                           "named <root>_v2) was loaded or rewritten",
+                           opened=[p for p in opened
+                                   if p.endswith("shards_list.json")][:3],
+                           rewritten=sib_list.read_bytes() != before)
     return [C.result(
         "hostile paths (.., absolute, normalised spellings, prefix-named "
         "sibling) in file infos / list infos / load_or_create / writer "
         "sub-directory: rejected or harmless; no file outside the root is "
         "opened or created", bad is None, function="no_directory_traversal",
         evaluations=n_eval, witness=bad,
-        bound="11 hostile + 3 odd (backslash) shard paths, 4 hostile + 3 odd "
-              "list paths (also as a list's own relative_path_self, then "
-              "continued writing), 5 writer options")]
+        bound="11 hostile + 8 odd (backslash, Unicode compatibility dots and "
+              "slashes) shard paths, 4 hostile + 5 odd list paths (also as a "
+              "list's own relative_path_self, then continued writing), 5 "
+              "writer options, 1 symbolic link to a prefix-named sibling")]
 
 
 # --------------------------------------------------------------------------
@@ -1151,6 +1321,36 @@ def check_reopen(ctx):
                 bad = dict(what="shard custom metadata differs", fmt=fmt,
                            got=str(shards[0].custom_metadata)[:200])
                 break
+            # the writer amends the description it holds and saves again
+            # without new shards (explicitly, then by a session that writes
+            # nothing): a fresh open reconstructs the amended description
+            for how in ("write_config([])", "empty filler session"):
+                n_eval += 1
+                d.metadata.description = "amended ✓ " + how
+                d.metadata.custom_metadata["amended"] = {"how": how,
+                                                         "n": [1, None]}
+                d.dataset_structure.saved_data_description[1].custom_metadata[
+                    "unit"] = "µV " + how
+                try:
+                    if how == "write_config([])":
+                        d.write_config(updated_infos=[])
+                    else:
+                        with d.filler():
+                            pass
+                    d3 = Dataset(root)
+                    if d3._dataset_info != d._dataset_info:
+                        bad = dict(what="description amended on the writing "
+                                   "handle and saved (" + how + ") differs "
+                                   "after reopen", fmt=fmt,
+                                   held=d.metadata.description,
+                                   reopened=d3.metadata.description)
+                except Exception as e:  # noqa: BLE001
+                    bad = dict(what="amend + " + how + " failed", fmt=fmt,
+                               error=repr(e)[:200])
+                if bad:
+                    break
+            if bad:
+                break
         out.append(C.result("reopen reconstructs the description (unicode, "
                             "nested custom metadata at dataset / attribute / "
                             "shard level, all settings)", bad is None,
@@ -1172,11 +1372,17 @@ def check_reopen(ctx):
                 t.parent.mkdir(parents=True, exist_ok=True)
                 shutil.copytree(src, t)
                 ref = C.iterate(Dataset(src), "numpy", "train")
-                for hi, how in enumerate(("absolute", "relative")):
+                for hi, how in enumerate(("absolute", "relative",
+                                          "relative with '..'")):
                     n_eval += 1
                     if how == "relative":
                         os.chdir(t.parent.parent)
                         p = Path(t.parent.name) / t.name
+                    elif how == "relative with '..'":
+                        side = t.parent.parent / "some side dir" / "deeper"
+                        side.mkdir(parents=True, exist_ok=True)
+                        os.chdir(side)
+                        p = Path("..") / ".." / t.parent.name / t.name
                     else:
                         p = t
                     try:
@@ -1203,7 +1409,8 @@ def check_reopen(ctx):
         finally:
             os.chdir(cwd)
         out.append(C.result("a copied / moved dataset directory (absolute or "
-                            "relative path; nested, unicode, blank, '~' names) "
+                            "relative path, also through '..'; nested, "
+                            "unicode, blank, '~' names) "
                             "opens, verifies, iterates and accepts writing",
                             bad is None, function="DatasetBase.__init__",
                             evaluations=n_eval, witness=bad))
